@@ -131,6 +131,11 @@ func (c cacheNode) SetWithExpireCtx(ctx context.Context, key string, val any,
 		return err
 	}
 
+	// a non-positive expire would be stored without ttl, fall back to the configured expiry
+	if expire <= 0 {
+		expire = c.aroundDuration(c.expiry)
+	}
+
 	return c.rds.SetexCtx(ctx, key, string(data), int(math.Ceil(expire.Seconds())))
 }
 
